@@ -77,8 +77,14 @@ Definition collect (pending : list rid) (cl : client) : client :=
      direct := filter (fun x => negb (Nat.eqb (snd x) 0)) (direct cl);
      deleted := filter (fun r => mem r ret) (deleted cl) |}.
 
+(* merging a resource set: data entries replace what the client has; an error entry (e.g. the access error of a
+   call's resource response) does not destroy data the client already holds for that resource *)
 Definition merge_set (rs : rset) (h : list (rid * rdata)) : list (rid * rdata) :=
-  fold_left (fun acc x => set_k (fst x) (snd x) acc) rs h.
+  fold_left (fun acc x =>
+    match snd x, lookup (fst x) acc with
+    | RErr _, Some (RModel _ | RColl _) => acc
+    | _, _ => set_k (fst x) (snd x) acc
+    end) rs h.
 
 Definition with_held (cl : client) (h : list (rid * rdata)) : client :=
   {| held := h; direct := direct cl; deleted := deleted cl |}.
